@@ -327,6 +327,7 @@ def run(ctx):
     from props.c15 import workdir_rule
     workdir_rule(ctx, syn, rid="C05.WORKDIR")   # the @include of a stand-off file is written through the same helper
     ext_rule(ctx)
+    dtexact_rule(ctx, syn)
     from props.c11 import name_rule
     name_rule(ctx, rid="C05.NAME")   # to_file(name) / from_file(name): the manifest or store file is written under the name given
     mir_rules(ctx)
@@ -438,10 +439,10 @@ def walk_rule(ctx, syn):
     ctx.floor(r, n, 1, "selector walks in the writers")
 
 
-def clean_rule(ctx, syn):
+def clean_rule(ctx, syn, rid="C05.CLEAN"):
     """the changed flag of a stand-off member decides whether save() rewrites its file; it may be cleared only when the
     member's *own* file was written.  A function that writes to a path it is given clears it only under path == self.filename()."""
-    r = ctx.rule("C05.CLEAN", "a function that writes a stand-off member to a path given by the caller clears the member's changed flag only if that path is the member's own file (guard comparing the parameter with self.filename())")
+    r = ctx.rule(rid, "a function that writes a stand-off member to a path given by the caller clears the member's changed flag only if that path is the member's own file (guard comparing the parameter with self.filename())")
     n = 0
     for fn in syn.fns:
         if not fn.body:
@@ -473,9 +474,41 @@ def clean_rule(ctx, syn):
                 for c_ in children(n_):
                     stack.append((c_, cs))
             return []
+        def is_equality(cs_list, p_):
+            """one of the enclosing conditions is the equality of the parameter with self.filename() (directly, or with the name
+            an enclosing `if let Some(x) = self.filename()` gave it); a looser comparison (ends_with, contains, ..) is not"""
+            def unwrap(c_):
+                c_ = c_.replace(" ", "")
+                while c_.startswith("(") and c_.endswith(")"):
+                    depth = 0
+                    closes_at_end = True
+                    for i_, ch in enumerate(c_):
+                        depth += ch == "("
+                        depth -= ch == ")"
+                        if depth == 0 and i_ < len(c_) - 1:
+                            closes_at_end = False
+                            break
+                    if not closes_at_end:
+                        break
+                    c_ = c_[1:-1]
+                return c_
+            flat = [unwrap(c_) for c_ in cs_list]
+            own = set(["self.filename()"])
+            for c_ in flat:
+                m_ = re.match(r"^letSome\((\w+)\)=self\.filename\(\)$", c_)
+                if m_:
+                    own.add(m_.group(1))
+            for c_ in flat:
+                for o_ in own:
+                    for a_, b_ in ((p_, o_), (o_, p_)):
+                        for fa, fb in (("Some(%s)", "%s"), ("%s", "Some(%s)"), ("%s", "%s")):
+                            if c_ == (fa % a_) + "==" + (fb % b_) and not (fa == "%s" and fb == "%s" and o_ == "self.filename()"):
+                                return True
+            return False
         for m in marks:
-            cs = " && ".join(conds_of(fn.body, m))
-            if not any(re.search(r"\b%s\b" % re.escape(p_), cs) and "filename()" in cs for p_ in params):
+            cs_list = conds_of(fn.body, m)
+            cs = " && ".join(cs_list)
+            if not any(is_equality(cs_list, p_) for p_ in params):
                 ctx.report(r, fn.qual, "%s writes to the path `%s` it is given and then clears the changed flag without comparing that path with self.filename(): exporting the member somewhere else makes save() skip the member's own stand-off file, and the store cannot be loaded back" % (fn.qual, params[0]), fn.file, m.get("l"))
     ctx.floor(r, n, 3, "functions that clear a changed flag")
 
@@ -552,3 +585,32 @@ def ext_rule(ctx, rid="C05.EXT"):
     # the rule has a positive example on every run: the text comparisons on file names (str::ends_with) that it must not confuse with this
     strs = sum(1 for bid, b in prog.bodies.items() for bi, t in b.calls() if (mirq.callee_of(t)[0] or "").endswith("str::<impl str>::ends_with") or (mirq.callee_of(t)[0] or "") == "core::str::<impl str>::ends_with")
     r.notes.append("Path::ends_with calls in the crate: %d; str::ends_with calls (not concerned): %d" % (n, strs))
+
+
+# ---------------------------------------------------------------------- DTEXACT
+LOSSY_SECONDS = ("Secs", "Millis", "Micros")
+
+
+def dtexact_rule(ctx, syn, rid="C05.DTEXACT"):
+    """a timestamp is a value like any other: what is written has to read back as the same instant.  chrono's own serde
+    impl and to_rfc3339() / to_rfc3339_opts(AutoSi | Nanos, ..) are exact; a fixed SecondsFormat cuts the sub-second part."""
+    r = ctx.rule(rid, "no serialiser of the crate renders a DateTime with a truncating SecondsFormat (Secs / Millis / Micros) or a strftime pattern")
+    n = 0
+    for fn in syn.fns:
+        if not fn.body or fn.file.startswith("src/api/webanno"):
+            continue
+        for c in walk(fn.body):
+            if c.get("k") != "mcall" or c["method"] not in ("to_rfc3339_opts", "to_rfc3339", "format"):
+                continue
+            if c["method"] == "to_rfc3339":
+                n += 1
+                continue
+            if c["method"] == "to_rfc3339_opts" and c["args"]:
+                n += 1
+                a0 = unparse(strip(c["args"][0]))
+                r.hit("%s|%s" % (fn.qual, a0), sample={"fn": fn.qual, "seconds_format": a0})
+                if a0.split("::")[-1] in LOSSY_SECONDS:
+                    ctx.report(r, "%s|%s" % (fn.qual, a0.split("::")[-1]), "%s writes a DateTime with %s: the sub-second part is cut off, so a timestamp with fractional seconds is read back as another instant" % (fn.qual, a0), fn.file, c.get("l"))
+    has_attr = [f_ for st in syn.enums.values() for v in st.get("variants", []) for f_ in v.get("fields", []) if any("serialize_with" in (a.get("tokens") or "") for a in f_.get("attrs", []) or [])]
+    r.notes.append("datetime renderings seen: %d; enum fields with a custom serialize_with: %d" % (n, len(has_attr)))
+    r.hit("scan", sample={"renderings": n})
